@@ -1078,13 +1078,19 @@ helperHandleRead(const Comm::ConnectionPointer &conn, char *, size_t len, Comm::
                 i = strtol(msg, &e, 10);
                 // Do we need to check for e == msg? Means wrong response from helper.
                 // Will be dropped as "unexpected reply on channel 0"
-                needsMore = !(xisspace(*e) || (eom && e == eom));
-                if (!needsMore) {
+                const bool idEnded = xisspace(*e) || (eom && e == eom);
+                // the ID digits may continue in the next read only if the data ends right after them
+                needsMore = !idEnded && !eom && !*e;
+                if (idEnded) {
                     msg = e;
                     while (*msg && xisspace(*msg))
                         ++msg;
+                } else if (!needsMore) {
+                    i = -1; // malformed channel-ID: matches no request; the line is skipped below
                 } // else not enough data to compute request number
             }
+            if (needsMore)
+                break; // do not look up (and pop) a request by a partial channel-ID
             if (!(srv->replyXaction = srv->popRequest(i))) {
                 if (srv->stats.timedout) {
                     debugs(84, 3, "Timedout reply received for request-ID: " << i << " , ignore");
